@@ -9,10 +9,13 @@ and emits it as a small first-order IR:
   _find_link                     the loop body as a list of guarded actions (skip this association /
                                  found, arguments as given / found, arguments swapped) over named atoms,
                                  and the exception raised when the loop ends
-  relate, unrelate               the arguments handed to _find_link, then the list of guarded link calls
+  relate, unrelate               the arguments handed to _find_link, then the guards
+                                 `for inst in (a, b): if inst in get_metaclass(inst).deleted: raise <Exc>` (relate: a
+                                 deleted instance must not become reachable again), then the list of guarded link calls
                                  `if not ass.<link>.<op>(a, b): <undo calls>; raise <Exc>`, then `return True`
-  MetaClass.delete, delete       the statement list: storage test / removal / exception, the `disconnect`
-                                 flag, the loop over `self.links.values()` with its inner unrelate call
+  MetaClass.delete, delete       the statement list: storage test / removal (and whether the removed instance is added
+                                 to `self.deleted`) / exception, the `disconnect` flag, the loop over
+                                 `self.links.values()` with its inner unrelate call
   MetaClass.new                  the order of its phases (construct, append to storage, defaults, positional,
                                  keywords, batch relate, …) and the argument order of the batch relate call
   Association.formalize          the property getter `fget` (which link it navigates, when it falls back to
@@ -234,7 +237,22 @@ def _pair_prog(tree, name):
     if ast.unparse(body[-1]) != 'return True':
         raise ValueError('%s: does not end with `return True`' % name)
     steps = []
+    guards = []
     for st in body[2:-1]:
+        if isinstance(st, ast.For):
+            # for inst in (<args>): if inst in get_metaclass(inst).deleted: raise <Exc>
+            if steps or st.orelse or not isinstance(st.target, ast.Name) or not isinstance(st.iter, ast.Tuple) \
+                    or len(st.body) != 1 or not isinstance(st.body[0], ast.If) or st.body[0].orelse \
+                    or len(st.body[0].body) != 1:
+                raise ValueError('%s: loop outside the expected shape: %s' % (name, ast.unparse(st)))
+            v = st.target.id
+            over = [ast.unparse(e) for e in st.iter.elts]
+            if any(o not in ARGS for o in over) or \
+                    ast.unparse(st.body[0].test) != '%s in get_metaclass(%s).deleted' % (v, v):
+                raise ValueError('%s: guard loop of unexpected shape: %s' % (name, ast.unparse(st)))
+            guards.append('{ over := [%s], raises := %s }' % (', '.join(ARGS[o] for o in over),
+                                                             _raise_name(st.body[0].body[0], name)))
+            continue
         if not (isinstance(st, ast.If) and not st.orelse and isinstance(st.test, ast.UnaryOp)
                 and isinstance(st.test.op, ast.Not)):
             raise ValueError('%s: statement outside the expected shape: %s' % (name, ast.unparse(st)))
@@ -246,7 +264,8 @@ def _pair_prog(tree, name):
             undo.append(_link_call(u.value, name))
         exc = _raise_name(st.body[-1], name)
         steps.append('{ call := %s, undo := [%s], raises := %s }' % (call, ', '.join(undo), exc))
-    return '{ findArgs := (%s, %s),\n    steps := [ %s ] }' % (ARGS[fargs[0]], ARGS[fargs[1]], ',\n               '.join(steps))
+    return '{ findArgs := (%s, %s),\n    guards := [%s],\n    steps := [ %s ] }' % (
+        ARGS[fargs[0]], ARGS[fargs[1]], ', '.join(guards), ',\n               '.join(steps))
 
 
 # --------------------------------------------------------------------------- delete
@@ -259,9 +278,16 @@ def _delete(tree):
     for st in _strip_doc(f.body):
         src = ast.unparse(st)
         if isinstance(st, ast.If) and ast.unparse(st.test) == 'instance in self.storage':
-            if [ast.unparse(s) for s in st.body] != ['self.storage.remove(instance)'] or len(st.orelse) != 1:
+            then = [ast.unparse(s) for s in st.body]
+            if then == ['self.storage.remove(instance)']:
+                marks = 'false'
+            elif then == ['self.storage.remove(instance)', 'self.deleted.add(instance)']:
+                marks = 'true'
+            else:
                 raise ValueError('MetaClass.delete: storage test of unexpected shape: %s' % src)
-            out.append('.removeFromStorageElseRaise %s' % _raise_name(st.orelse[0], 'MetaClass.delete'))
+            if len(st.orelse) != 1:
+                raise ValueError('MetaClass.delete: storage test of unexpected shape: %s' % src)
+            out.append('.removeFromStorageElseRaise %s %s' % (_raise_name(st.orelse[0], 'MetaClass.delete'), marks))
         elif src == 'if not disconnect:\n    return':
             out.append('.returnUnlessDisconnect')
         elif isinstance(st, ast.For) and ast.unparse(st.target) == 'link' and ast.unparse(st.iter) == 'self.links.values()' \
@@ -469,8 +495,15 @@ structure GuardedCall where
   raises : Exc
   deriving Repr
 
+/-- `for inst in (<over…>): if inst in get_metaclass(inst).deleted: raise <raises>` -/
+structure DeletedGuard where
+  over : List Arg
+  raises : Exc
+  deriving Repr
+
 structure PairProg where
   findArgs : Arg × Arg
+  guards : List DeletedGuard          -- between `_find_link` and the link calls
   steps : List GuardedCall
   deriving Repr
 
@@ -479,7 +512,8 @@ inductive DArg where
   deriving DecidableEq, Repr
 
 inductive DStmt where
-  | removeFromStorageElseRaise (e : Exc)      -- if instance in self.storage: self.storage.remove(instance) else: raise
+  | removeFromStorageElseRaise (e : Exc) (addsToDeleted : Bool)
+      -- if instance in self.storage: self.storage.remove(instance) [; self.deleted.add(instance)] else: raise
   | returnUnlessDisconnect                    -- if not disconnect: return
   | forLinksUnrelate (skipAbsent : Bool) (a1 a2 : DArg)
       -- for link in self.links.values(): [if instance not in link: continue]
